@@ -420,3 +420,40 @@ def sensor_spec(draw, max_path=1, extent=3.0, pix_extent=0.2, shapes=None, kinds
          "handedness": draw(st.sampled_from(["right", "right", "left"]))}
     s.update(draw(pose_path(max_len=max_path, extent=extent, kinds=kinds)))
     return s
+
+
+@st.composite
+def variant_of(draw, spec, max_path=4, pos_extent=1.0):
+    """A second source of the same class that shares most numbers with `spec`: one axis of
+    the vertices scaled / one dimension component changed, new pose, (often) new excitation.
+    Sources that differ in few entries are what per-group caching and 'same as previous'
+    shortcuts in vectorised code can confuse."""
+    out = {k: (list(v) if isinstance(v, list) else v) for k, v in spec.items()}
+    ax = draw(st.integers(0, 2))
+    f = r6(draw(ufloat(0.5, 1.5)))
+    if f == 1.0:
+        f = 1.25
+    if "vertices" in out:
+        V = np.array(out["vertices"], dtype=float)
+        V[:, ax] = V[:, ax] * f
+        out["vertices"] = [[r6(x) for x in row] for row in V]
+    elif "dimension" in out:
+        d = list(out["dimension"])
+        k = draw(st.integers(0, min(2, len(d) - 1)))
+        if spec["cls"] == "CylinderSegment" and k == 0:
+            k = 2
+        d[k] = r6(d[k] * f)
+        if spec["cls"] == "CylinderSegment" and not d[0] < d[1]:
+            d[1] = r6(d[0] * 1.5 + 0.1)
+        out["dimension"] = d
+    elif "diameter" in out:
+        out["diameter"] = r6(out["diameter"] * f)
+    if draw(st.booleans()):
+        if "polarization" in out:
+            out["polarization"] = draw(excitation_vec())
+        elif "moment" in out:
+            out["moment"] = draw(excitation_vec())
+        elif "current" in out:
+            out["current"] = r6(draw(ufloat(-5, 5)) or 1.0)
+    out.update(draw(pose_path(max_len=max_path, extent=pos_extent)))
+    return out
